@@ -179,9 +179,9 @@ def judge(pre_o, op, post_o, obs, nv):
     if obs[0] != ret:
         bad.append("raised" if obs[0] == "exc" else "did-not-raise")
     if post_o["um"] != um:
-        bad.append("universe.vertices" + ("-order" if [sorted(r) for r in post_o["um"]] == [sorted(r) for r in um] else ""))
+        bad.append("universe.vertices" + ("-order" if [sorted(r, key=repr) for r in post_o["um"]] == [sorted(r, key=repr) for r in um] else ""))
     if post_o["xu"] != xu:
-        bad.append("x.universes" + ("-order" if [sorted(r) for r in post_o["xu"]] == [sorted(r) for r in xu] else ""))
+        bad.append("x.universes" + ("-order" if [sorted(r, key=repr) for r in post_o["xu"]] == [sorted(r, key=repr) for r in xu] else ""))
     return bad
 
 
